@@ -210,6 +210,14 @@ def run(tier, seed):
         if len({g[i][1] for i in exact}) >= 2 and len(idx) <= 8:
             coll += list(itertools.product(idx, repeat=3))
             coll += [tuple(ctx.rng.choice(idx) for _ in range(ctx.rng.choice([4, 5]))) for _ in range(40)]
+    # ... and the same pairs of indistinguishable exact operands AFTER an unrelated inexact operand (the first pair of the chain is a mixed comparison, the second
+    # pair an exact one that must not inherit anything from it)
+    inexact_idx = [i for i in range(n) if not ref_num.is_exact(g[i][1]) and g[i][1].value == g[i][1].value]
+    for f, idx in classes.items():
+        exact = [i for i in idx if ref_num.is_exact(g[i][1])]
+        if len({g[i][1] for i in exact}) >= 2 and len(idx) <= 8:
+            for x in ctx.rng.sample(inexact_idx, min(6, len(inexact_idx))):
+                coll += [(x, a, b) for a in exact for b in exact] + [(a, x, b) for a in exact[:2] for b in exact[:2]]
     ctx.observed["collision_tuples"] = len(coll)
     triples = list(triples) + longs + (coll if core.PART_I == 0 else [])
     ctx.observed["grid_size"] = n
@@ -217,7 +225,32 @@ def run(tier, seed):
         ts = pairs + (triples if (leg == "dev" or tier == "thorough") else triples[::5])
         run_leg(ctx, leg, g, ts)
         ctx.legs.append(leg)
+    if core.PART_I == 0:
+        short_tuples(ctx, g)
     return ctx.finish(min_evals=10000, min_nontrivial=50)
+
+
+def short_tuples(ctx, g):
+    """operand tuples of length 0 and 1: there is no adjacent pair, so the conjunction is true - called directly and through apply"""
+    defs = operand_defs(g)
+    steps = [{"src": d} for d in defs]
+    steps.append({"src": "(vector (=) (<) (>) (<=) (>=) (apply = '()) (apply < '()) (apply >= (list)))"})
+    for i in range(len(g)):
+        steps.append({"src": "(vector (= n%d) (< n%d) (> n%d) (<= n%d) (>= n%d) (apply < (list n%d)) (apply = n%d '()))" % ((i,) * 7)})
+    rec = core.run_jobs([{"id": "c10-short", "interps": [{"stdlib": True}], "steps": steps, "fuel": 10000}], "dev", timeout=300, tag="c10s")[0]
+    if rec is None or "steps" not in rec:
+        ctx.inconclusive_cases += 1; return
+    for k, st in enumerate(rec["steps"][len(defs):]):
+        ctx.evaluations += 1
+        kind, v = core.outcome(st)
+        ok = kind == "ok" and isinstance(v, dict) and all(x.get("b") is True for x in v.get("v", [{}]))
+        shown = "no operand" if k == 0 else "the single operand %s" % g[k - 1][0]
+        if not ok:
+            ctx.violation({"what": "a comparison over fewer than two operands is not true (the conjunction over no adjacent pair)", "kind": "cmp", "operands": shown,
+                           "observed": v if kind != "ok" else v.get("v"), "dedupe": "short|%s" % (k == 0)}, {"operands": shown})
+        else:
+            ctx.count("checked_short_tuples")
+    ctx.legs.append("short-tuples")
 
 
 def replay(path):
